@@ -513,6 +513,7 @@ def run(shard, rec, rng):
     middleware_release_order(L, rec)
     handed_over_iterators_and_single_local_managers(L, rec)
     with_blocks_and_contextvar_proxies(L, rec)
+    inplace_ops_on_threads_and_manager_inputs(L, rec, rng)
     # (b) threads
     TOPS = [o for o in OPS if o != "spawn"]
     for _ in range(cfg["thread_scheds"]):
@@ -892,6 +893,98 @@ def with_blocks_and_contextvar_proxies(L, rec):
         if rb != want or ru != ("unbound", "nothing bound"):
             rec.violation("C18/PROXY-bound-object-reported-unbound" if rb[0] == "unbound" else "C18/PROXY-contextvar-resolution", f"LocalProxy(ContextVar, {attr!r}): where an object is bound -> {rb!r} (expected {want!r}); where nothing is bound -> {ru!r}",
                           {"scenario": "contextvar-proxy", "attribute": attr}, monitor="proxy")
+
+
+def inplace_ops_on_threads_and_manager_inputs(L, rec, rng):
+    """Schedule: eight threads each bind their own list and set and update them in place through one module-level
+    proxy (p += ..., p |= ..., p -= ...), yields injected in every function of the proxy machinery: each update lands in
+    the updating thread's own object.  History: a LocalManager built from any iterable of locals (list, tuple, generator,
+    iterator, a single local) releases all of them on every cleanup, not only on the first."""
+    mon = sys.monitoring
+    TOOL = 5
+    try:
+        mon.use_tool_id(TOOL, "verif-yield-c18b")
+    except ValueError:
+        return
+    inj = [0]
+
+    def on_line(code, line):
+        inj[0] += 1
+        time.sleep(0)
+
+    codes = []
+    for nm_ in ("_ProxyLookup", "_ProxyIOp", "LocalProxy"):
+        cls_ = getattr(L, nm_, None)
+        for f in vars(cls_).values() if cls_ is not None else ():
+            if hasattr(f, "__code__"):
+                codes.append(f.__code__)
+                codes += [k for k in f.__code__.co_consts if hasattr(k, "co_code")]
+    mon.register_callback(TOOL, mon.events.LINE, on_line)
+    for c in codes:
+        mon.set_local_events(TOOL, c, mon.events.LINE)
+    old_si = sys.getswitchinterval()
+    sys.setswitchinterval(1e-5)
+    try:
+        ns = L.Local()
+        p_list, p_set, p_num = ns("items"), ns("tags"), ns("count")
+        NT, N = 8, 60
+        out = {}
+        start = threading.Barrier(NT)
+
+        def work(i):
+            ns.items, ns.tags, ns.count = [], set(), 0
+            mine_l, mine_s = ns.items, ns.tags
+            pl, ps, pn = p_list, p_set, p_num
+            start.wait()
+            for k in range(N):
+                pl += [(i, k)]
+                ps |= {(i, k)}
+                pn += 1
+                if k % 7 == 3:
+                    ps -= {(i, k)}
+            out[i] = (list(mine_l), set(mine_s), ns.count, pl is p_list)
+
+        ts = [threading.Thread(target=work, args=(i,)) for i in range(NT)]
+        for t in ts:
+            t.start()
+        for t in ts:
+            t.join(120)
+        rec.case()
+        rec.nontrivial(("inplace-threads", NT, N))
+        rec.observe("inplace_updates_through_a_shared_proxy", NT * N * 3)
+        for i in range(NT):
+            lst, st_, cnt, same = out.get(i, ([], set(), None, None))
+            want_l = [(i, k) for k in range(N)]
+            want_s = {(i, k) for k in range(N) if k % 7 != 3}
+            if lst != want_l or st_ != want_s:  # (an int cannot be updated in place; the proxy has nothing to rebind)
+                foreign = [x for x in lst if x[0] != i][:3]
+                rec.violation("C18/PROXY-resolves-to-a-sibling-contexts-object", f"thread {i} updated its own list and set in place through the shared proxy {N} times: the list holds {len(lst)} entries "
+                              f"({len(foreign) and 'among them ' + repr(foreign) or 'all its own'}), the set {len(st_)} (expected {len(want_s)})", {"scenario": "inplace-threads", "thread": i}, monitor="per-thread-model")
+                break
+    finally:
+        sys.setswitchinterval(old_si)
+        for c in codes:
+            mon.set_local_events(TOOL, c, 0)
+        mon.free_tool_id(TOOL)
+        rec.observe("inplace_injected_yields", inj[0])
+    # ---- manager inputs
+    for shape in ("list", "tuple", "generator", "iterator", "single", "map"):
+        ns2, stk2 = L.Local(), L.LocalStack()
+        both = [ns2, stk2]
+        arg = {"list": both, "tuple": tuple(both), "generator": (x for x in both), "iterator": iter(both), "single": ns2, "map": map(lambda x: x, both)}[shape]
+        mgr = L.LocalManager(arg)
+        seen = []
+        for req in range(4):
+            seen.append((getattr(ns2, "user", None), stk2.top if shape != "single" else None))
+            ns2.user = f"user{req}"
+            if shape != "single":
+                stk2.push(f"frame{req}")
+            mgr.cleanup()
+        rec.case()
+        rec.nontrivial(("manager-input", shape))
+        rec.observe("managers_built_from_other_iterables")
+        if seen != [(None, None)] * 4:
+            rec.violation("C18/LEAK-request-data-survives-cleanup", f"LocalManager({shape} of locals): what the requests found at their start, one after the other on one thread: {seen!r}", {"scenario": "manager-input", "shape": shape}, monitor="per-thread-model")
 
 
 def stress(L, rec, rng, nops):
